@@ -121,6 +121,8 @@ impl Profile {
                 p.fail_fast_pm = 50;
             }
             "C08" => {
+                // (a burst of more than 64 completions in one pass of the executor needs the wide shape)
+                p.wide_pm = if thorough { 60 } else { 30 };
                 p.fail_fast_pm = 1000;
                 p.faults_pm = 900;
                 p.parser_err_pm = 250;
@@ -479,7 +481,14 @@ pub fn gen_plan(seed: u64, prof: &Profile) -> Plan {
         _ => cfg.cli_concurrency = Some(pick_limit(&mut r)),
     }
     if wide {
+        // 70 - 100 trivial scenarios ready at once: under the default limit of 64, without any limit, or under
+        // a limit that happens to be larger than the default
         cfg = RunnerCfg::default();
+        match r.below(3) {
+            0 => {}
+            1 => cfg.builder_concurrency = BuilderLimit::Unlimited,
+            _ => cfg.cli_concurrency = Some(*r.pick(&[65usize, 128, 1000])),
+        }
     }
     if retries_on {
         match r.below(5) {
